@@ -633,6 +633,244 @@ Proof.
       apply andb_prop in E. destruct E as [E _]. apply Nat.eqb_eq in E. subst g. cbn [f_st]. fold x in Hg. eauto.
     + auto.
   - apply same5_rrel. unfold put_fut. rewrite upd_oob_f by lia. constructor; try reflexivity; auto.
-    destruct st; reflexivity.
 Qed.
 
+
+Lemma rinv_pop : forall st n h rd, rinv st -> md st = MLoop -> ready st = h :: rd ->
+  rinv (set_ready (set_todo st n) rd) /\
+  (is_res h = true -> cres rd + cw (futs st) = 0).
+Proof.
+  intros st n h rd [Rr Ro Rs Rw Rc Rh] Hm Er.
+  assert (Ec : cres (ready st) = (if is_res h then 1 else 0) + cres rd).
+  { rewrite Er. unfold cres. simpl. destruct (is_res h); reflexivity. }
+  split.
+  - constructor.
+    + intros c Hc. cbn in Hc. rewrite Hm in Hc. discriminate.
+    + cbn [ready futs set_ready set_todo]. destruct (is_res h); lia.
+    + intros x Hx. apply Rs. rewrite Er. right. exact Hx.
+    + intros x g Hx. apply Rw. rewrite Er. right. exact Hx.
+    + exact Rc.
+    + exact Rh.
+  - intros E. rewrite E in Ec. lia.
+Qed.
+
+Lemma sfw_pop : forall st n h rd, sfw st -> ready st = h :: rd -> sfw (set_ready (set_todo st n) rd).
+Proof.
+  intros st n h rd [a b c d] Er. constructor; try assumption. cbn [ready set_ready]. rewrite Er in c. inversion c; assumption.
+Qed.
+
+Lemma rinv_run_handle : forall st n h rd, sfw st -> rinv st -> md st = MLoop -> ready st = h :: rd ->
+  rinv (run_handle (set_ready (set_todo st n) rd) (h_kind h)).
+Proof.
+  intros st n h rd W R Hm Er.
+  destruct (rinv_pop st n h rd R Hm Er) as [R1 Z1].
+  pose proof (sfw_pop st n h rd W Er) as W1.
+  set (st1 := set_ready (set_todo st n) rd) in *.
+  assert (Hm1 : md st1 = MLoop) by exact Hm.
+  assert (L : forall st', rrel st1 st' -> rinv st') by (intros st' Q; exact (rrel_rinv_loop _ _ Q R1 Hm1)).
+  destruct (h_kind h) eqn:Ek; cbn [run_handle].
+  - apply rinv_task_step; try assumption. apply Z1. unfold is_res. rewrite Ek. reflexivity.
+  - unfold run_cb. destruct c as [|outer|inner].
+    + apply rinv_task_step; try assumption. apply Z1. unfold is_res. rewrite Ek. reflexivity.
+    + destruct (f_st (get_fut st1 outer)); try exact R1;
+        (destruct (f_st (get_fut st1 f)); apply L; apply rrel_fut_finish; first [left; reflexivity|right; eauto]).
+    + destruct (fut_done st1 inner); [exact R1|]. apply L. apply rrel_remove_cb_inner.
+  - destruct (f_st (get_fut st1 f)); try exact R1; (apply L; apply rrel_fut_finish; left; reflexivity).
+  - apply L. apply rrel_scope_cancel.
+  - apply L. apply rrel_deliver.
+  - destruct (task_done st1); [exact R1|]. apply L. eapply rrel_trans; [|apply rrel_task_cancel].
+    unfold task_uncancel. destruct (t_cnt st1); r5.
+  - apply L. r5.
+  - destruct (task_done st1); [exact R1|]. apply L. eapply rrel_trans; [|apply rrel_task_cancel].
+    unfold note_ext. destruct (in_shield _); r5.
+Qed.
+
+Lemma inject_nr : forall it c rd nh, cres (fst (inject it c rd nh)) = cres rd /\
+  (forall h, In h (fst (inject it c rd nh)) -> In h rd \/ h_kind h = HExt).
+Proof.
+  induction c as [|[n front] c IH]; intros rd nh; cbn [inject fst]; [split; auto|].
+  destruct (n =? it); [|apply IH].
+  destruct front.
+  - destruct (IH (mkH nh HExt false :: rd) (S nh)) as [A B]. split.
+    + rewrite A. unfold cres. simpl. reflexivity.
+    + intros h Hh. destruct (B h Hh) as [[E|Hin]|Hk]; [subst h; right; reflexivity|left; exact Hin|right; exact Hk].
+  - destruct (IH (rd ++ [mkH nh HExt false]) (S nh)) as [A B]. split.
+    + rewrite A, cres_app. unfold cres at 2. simpl. lia.
+    + intros h Hh. destruct (B h Hh) as [Hin|Hk]; [|right; exact Hk].
+      apply in_app_or in Hin. destruct Hin as [Hin|[E|[]]]; [left; exact Hin|subst h; right; reflexivity].
+Qed.
+
+Lemma move_due_nr : forall fuel now hp rd, Forall nr_t hp ->
+  Forall nr_t (fst (move_due fuel now hp rd)) /\ cres (snd (move_due fuel now hp rd)) = cres rd /\
+  (forall h, In h (snd (move_due fuel now hp rd)) -> In h rd \/ is_res h = false).
+Proof.
+  induction fuel as [|fu IH]; intros now hp rd Hh; simpl; [repeat split; auto|].
+  destruct hp as [|t hp0]; [repeat split; auto|]. destruct (tm_when t <=? now); [|repeat split; auto].
+  destruct (heappop (t :: hp0)) as [[t' hp']|] eqn:E; [|repeat split; auto].
+  destruct (FP_heappop nr_t nr_dummy _ _ _ Hh E) as [Ht Hh'].
+  destruct (IH now hp' (rd ++ [tm_h t']) Hh') as (A & B & C). repeat split; [exact A| |].
+  - rewrite B, cres_app. unfold cres at 2. simpl. unfold nr_t in Ht. rewrite Ht. simpl. lia.
+  - intros h Hx. destruct (C h Hx) as [Hin|Hn]; [|right; exact Hn].
+    apply in_app_or in Hin. destruct Hin as [Hin|[E0|[]]]; [left; exact Hin|subst h; right; exact Ht].
+Qed.
+
+Lemma rinv_begin_iter : forall st, rinv st -> md st = MLoop -> rinv (begin_iter st).
+Proof.
+  intros st [Rr Ro Rs Rw Rc Rh] Hm. unfold begin_iter.
+  set (st0 := set_iter st (S (iter st))).
+  destruct (inject_nr (S (iter st)) (ctrl st0) (ready st0) (nexth st0)) as [Ic Ii].
+  destruct (inject (S (iter st)) (ctrl st0) (ready st0) (nexth st0)) as [rd nh]. cbn [fst] in Ic, Ii.
+  pose proof (FP_drop_cancelled_heads nr_t nr_dummy (length (heap (set_nexth (set_ready st0 rd) nh)))
+                (heap (set_nexth (set_ready st0 rd) nh)) Rh) as Hdrop.
+  set (hp := drop_cancelled_heads _ _) in *.
+  set (st1 := set_heap (set_nexth (set_ready st0 rd) nh) hp).
+  assert (Base : forall X rdX, ready X = rdX -> futs X = futs st -> t_waiter X = t_waiter st -> md X <> MRun CRet ->
+            (forall c, md X <> MRun c) -> cres rdX = cres (ready st) ->
+            (forall h, In h rdX -> In h (ready st) \/ is_res h = false) -> Forall nr_t (heap X) -> rinv X).
+  { intros X rdX Er Ef Ew _ Hnr Ec Hin Hh. constructor.
+    - intros c Hc. exfalso. exact (Hnr c Hc).
+    - rewrite Er, Ef, Ec. exact Ro.
+    - intros h Hx Hk. rewrite Ew. rewrite Er in Hx. destruct (Hin h Hx) as [Hi|Hn]; [exact (Rs h Hi Hk)|].
+      unfold is_res in Hn. rewrite Hk in Hn. discriminate.
+    - intros h g Hx Hk. rewrite Ew. rewrite Er in Hx. destruct (Hin h Hx) as [Hi|Hn]; [exact (Rw h g Hi Hk)|].
+      unfold is_res in Hn. rewrite Hk in Hn. discriminate.
+    - intros g Hg. rewrite Ew. apply Rc. unfold get_fut in *. rewrite Ef in Hg. exact Hg.
+    - exact Hh. }
+  assert (Hin1 : forall h, In h rd -> In h (ready st) \/ is_res h = false).
+  { intros h Hh. destruct (Ii h Hh) as [Hi|Hk]; [left; exact Hi|right; unfold is_res; rewrite Hk; reflexivity]. }
+  assert (Fin : forall st2, ready st2 = rd -> futs st2 = futs st -> t_waiter st2 = t_waiter st -> md st2 = md st -> rinv
+     (let '(hp', rd') := move_due (length hp) (time st2) hp (ready st2) in
+      set_todo (set_ready (set_heap st2 hp') rd') (length rd'))).
+  { intros st2 r2 f2 w2 m2.
+    destruct (move_due_nr (length hp) (time st2) hp (ready st2) Hdrop) as (Mh & Mc & Mi).
+    destruct (move_due (length hp) (time st2) hp (ready st2)) as [hp' rd']. cbn [fst snd] in Mh, Mc, Mi.
+    apply (Base _ rd'); try reflexivity; try assumption.
+    - cbn [md set_todo set_ready set_heap]. rewrite m2, Hm. discriminate.
+    - intros c. cbn [md set_todo set_ready set_heap]. rewrite m2, Hm. discriminate.
+    - rewrite Mc, r2. exact Ic.
+    - intros h Hx. destruct (Mi h Hx) as [Hi|Hn]; [|right; exact Hn]. rewrite r2 in Hi. apply Hin1. exact Hi. }
+  destruct (ready st1) as [|h0 rd0] eqn:Er; destruct hp as [|t0 hp0] eqn:Eh.
+  - apply (Base _ rd); try reflexivity; try assumption; try discriminate.
+  - apply Fin; reflexivity.
+  - apply Fin; reflexivity.
+  - destruct (negb (spinK st1 =? 0) && (spinK st1 <=? S (spin st1))); apply Fin; reflexivity.
+Qed.
+
+(* ---- the joint invariant of the shield-free world *)
+Definition jinv (st : state) : Prop := sfw st /\ rinv st.
+
+Theorem jinv_step : forall st, jinv st -> jinv (step st).
+Proof.
+  intros st [W R]. split; [apply sfw_step; exact W|].
+  unfold step. destruct (md st) as [c| |r|] eqn:Hm; try exact R.
+  - destruct c as [p| |e]; [apply rinv_exec|apply rinv_ret|apply rinv_raise]; assumption.
+  - destruct (todo st) as [|n]; [apply rinv_begin_iter; assumption|].
+    unfold run_next. cbn [ready set_todo]. destruct (ready st) as [|h rd] eqn:Er.
+    + eapply rinv_same; [exact R| | | | |]; try reflexivity. intros c Hc. cbn in Hc. rewrite Hm in Hc. discriminate.
+    + destruct (h_canc h); [exact (proj1 (rinv_pop st n h rd R Hm Er))|].
+      apply (rinv_run_handle st n h rd W R Hm Er).
+Qed.
+
+Lemma jinv_init : forall fx fb p timers turns k, shield_free p = true -> jinv (init fx fb p timers turns k).
+Proof.
+  intros fx fb p timers turns k Hp. split; [apply sfw_init; exact Hp|].
+  unfold init.
+  set (st0 := mkState _ _ _ _ _ _ _ _ _ _ _ _ _ _ _ _ _ _ _ _ _ _ _ _ _ _ _ _ _ _).
+  assert (R0 : rinv st0).
+  { constructor.
+    - intros c Hc. discriminate.
+    - cbn. lia.
+    - intros h Hh Hk. reflexivity.
+    - intros h g [E|[]] Hk. subst h. discriminate.
+    - intros g Hg. cbn in Hg. destruct g; destruct Hg.
+    - constructor. }
+  assert (M0 : md st0 = MLoop) by reflexivity.
+  clearbody st0. revert st0 R0 M0. induction timers as [|t ts IH]; intros st0 R0 M0; simpl; [exact R0|].
+  apply IH; [|exact M0]. exact (rrel_rinv_loop _ _ (rrel_call_at st0 t HExt eq_refl) R0 M0).
+Qed.
+
+Lemma jinv_reachable : forall fx fb p timers turns k fuel, shield_free p = true ->
+  jinv (run_steps fuel (init fx fb p timers turns k)).
+Proof.
+  intros fx fb p timers turns k fuel Hp.
+  assert (G : forall fuel st, jinv st -> jinv (run_steps fuel st)).
+  { clear. induction fuel as [|fu IH]; intros st J; simpl; [exact J|].
+    destruct (md st); try exact J; apply IH; apply jinv_step; exact J. }
+  apply G. apply jinv_init. exact Hp.
+Qed.
+
+(* ======== a cancellation on its way is never lost ======== *)
+Definition doomed (st : state) : Prop :=
+  t_must st = true \/ exists f m, t_waiter st = Some f /\ f_st (get_fut st f) = FCanc m.
+
+Lemma doomed_rrel : forall st st', rrel st st' -> doomed st -> doomed st'.
+Proof.
+  intros st st' Q [H|[f [m [Hw Hf]]]]; [left; apply (rr_must _ _ Q); exact H|].
+  right. destruct (rr_canc _ _ Q f m Hf) as [m' H']. exists f, m'. split; [rewrite (rr_waiter _ _ Q); exact Hw|exact H'].
+Qed.
+
+Lemma task_step_doomed : forall st v, sfw st -> (t_must st = true \/ exists m, v = Some (ECancel m)) ->
+  (exists m, md (task_step st v) = MRun (CRaise (ECancel m))) \/ md (task_step st v) = MDead.
+Proof.
+  intros st v W H. unfold task_step.
+  set (p := if t_must st then _ else _).
+  assert (P : frames (fst p) = frames st /\ exists m, snd p = Some (ECancel m)).
+  { unfold p. destruct (t_must st) eqn:E.
+    - split; [reflexivity|]. cbn [snd]. destruct v as [[m| |]|]; eexists; reflexivity.
+    - destruct H as [H|[m ->]]; [discriminate|]. split; [reflexivity|]. cbn [snd]. eexists; reflexivity. }
+  destruct p as [st0 v0]. cbn [fst snd] in P. destruct P as [Pf [m ->]].
+  set (st1 := set_md (set_t_waiter st0 None) (MRun CRet)).
+  rewrite (eq_trans (eq_refl : frames st1 = frames st0) Pf).
+  rewrite resume_in_no_shield by (apply frames_no_shield; exact (w_frames _ W)).
+  pose proof (w_frames _ W) as Hfr.
+  destruct (frames st) as [|fr k']; [right; reflexivity|].
+  destruct fr; try (right; reflexivity).
+  - left. exists m. reflexivity.
+  - destruct w as [i|i|i f h]; [left; exists m; reflexivity|cbn in Hfr; discriminate|left; exists m; reflexivity].
+Qed.
+
+Theorem doom_step : forall st, jinv st -> md st = MLoop -> doomed st ->
+  (md (step st) = MLoop /\ doomed (step st)) \/
+  (exists m, md (step st) = MRun (CRaise (ECancel m))) \/ md (step st) = MDead.
+Proof.
+  intros st [W R] Hm D. unfold step. rewrite Hm.
+  destruct (todo st) as [|n].
+  - (* begin_iter: only queues and the clock move *)
+    assert (B : (md (begin_iter st) = MLoop \/ md (begin_iter st) = MDead) /\ t_must (begin_iter st) = t_must st /\
+                t_waiter (begin_iter st) = t_waiter st /\ futs (begin_iter st) = futs st).
+    { unfold begin_iter.
+      repeat match goal with |- context [match ?x with _ => _ end] => destruct x end;
+        cbn; rewrite ?Hm; repeat split; auto. }
+    destruct B as ([Bm|Bm] & B1 & B2 & B3); [left|right; right; exact Bm].
+    split; [exact Bm|]. destruct D as [D|[f [m [Dw Df]]]]; [left; congruence|].
+    right. exists f, m. split; [congruence|]. unfold get_fut in *. rewrite B3. exact Df.
+  - unfold run_next. cbn [ready set_todo]. destruct (ready st) as [|h rd] eqn:Er; [left; split; [exact Hm|exact D]|].
+    set (st1 := set_ready (set_todo st n) rd).
+    assert (D1 : doomed st1) by exact D.
+    assert (Hm1 : md st1 = MLoop) by exact Hm.
+    pose proof (sfw_pop st n h rd W Er) as W1. fold st1 in W1.
+    destruct (h_canc h); [left; split; [exact Hm1|exact D1]|].
+    assert (L : forall st', rrel st1 st' -> (md st' = MLoop /\ doomed st') \/
+                 (exists m, md st' = MRun (CRaise (ECancel m))) \/ md st' = MDead).
+    { intros st' Q. left. split; [rewrite (rr_md _ _ Q); exact Hm1|exact (doomed_rrel _ _ Q D1)]. }
+    destruct (h_kind h) eqn:Ek; cbn [run_handle].
+    + right. apply task_step_doomed; [exact W1|]. left.
+      destruct D as [D|[f [m [Dw _]]]]; [exact D|].
+      pose proof (r_step _ R h ltac:(rewrite Er; left; reflexivity) Ek) as Wn. congruence.
+    + unfold run_cb. destruct c as [|outer|inner].
+      * right. apply task_step_doomed; [exact W1|].
+        pose proof (r_wake _ R h f ltac:(rewrite Er; left; reflexivity) Ek) as Wf.
+        destruct D as [D|[g [m [Dw Df]]]]; [left; exact D|].
+        right. assert (g = f) by congruence. subst g. change (get_fut st1 f) with (get_fut st f). rewrite Df. eauto.
+      * destruct (f_st (get_fut st1 outer)); try (left; split; [exact Hm1|exact D1]);
+          (destruct (f_st (get_fut st1 f)); apply L; apply rrel_fut_finish; first [left; reflexivity|right; eauto]).
+      * destruct (fut_done st1 inner); [left; split; [exact Hm1|exact D1]|]. apply L. apply rrel_remove_cb_inner.
+    + destruct (f_st (get_fut st1 f)); try (left; split; [exact Hm1|exact D1]); (apply L; apply rrel_fut_finish; left; reflexivity).
+    + apply L. apply rrel_scope_cancel.
+    + apply L. apply rrel_deliver.
+    + destruct (task_done st1); [left; split; [exact Hm1|exact D1]|]. apply L. eapply rrel_trans; [|apply rrel_task_cancel].
+      unfold task_uncancel. destruct (t_cnt st1); r5.
+    + apply L. r5.
+    + destruct (task_done st1); [left; split; [exact Hm1|exact D1]|]. apply L. eapply rrel_trans; [|apply rrel_task_cancel].
+      unfold note_ext. destruct (in_shield _); r5.
+Qed.
